@@ -68,9 +68,14 @@ def _check_nextpow2(prog: Program) -> Tuple[bool, str]:
         if r in blk and blk.index(r) > 0 and isinstance(blk[blk.index(r) - 1], ast.While):
             w = blk[blk.index(r) - 1]
             t = w.test
+            neg = False
+            if isinstance(t, ast.UnaryOp) and isinstance(t.op, ast.Not):
+                neg, t = True, t.operand        # `while not p > n`
             exits_gt = isinstance(t, ast.Compare) and len(t.ops) == 1 and isinstance(t.left, ast.Name) and isinstance(t.comparators[0], ast.Name) and (
-                (t.left.id == p and t.comparators[0].id == n and isinstance(t.ops[0], ast.LtE)) or
-                (t.left.id == n and t.comparators[0].id == p and isinstance(t.ops[0], ast.GtE)))
+                (not neg and t.left.id == p and t.comparators[0].id == n and isinstance(t.ops[0], ast.LtE)) or
+                (not neg and t.left.id == n and t.comparators[0].id == p and isinstance(t.ops[0], ast.GtE)) or
+                (neg and t.left.id == p and t.comparators[0].id == n and isinstance(t.ops[0], ast.Gt)) or
+                (neg and t.left.id == n and t.comparators[0].id == p and isinstance(t.ops[0], ast.Lt)))
             if exits_gt and not w.orelse and not any(isinstance(x, (ast.Break, ast.Return)) for x in ast.walk(w)):
                 continue
         # walk up: must sit in the true branch of `if p > n` / `if p >= n` / `if n < p`
